@@ -46,6 +46,8 @@ RULE += (' Also: sum over a handle whose first item cannot be added stops at tha
 RULE += (' Also: an ended scope context cannot be entered a second time.')
 RULE += (' Also: the handle zipped with a class iterator that has nothing to close; a set built from a chain whose first element is unhashable.')
 RULE += (' Also: the handle merged after a source that compares equal to everything.')
+RULE += (' Also: min / max without a key meeting an item they cannot compare (they stop there; the rest stays on the handle).')
+RULE += (' Also: the handle merged between empty inputs and inputs that end early (closed with the tool at every stopping point).')
 ASSUMPTIONS = ["laziness of the tools themselves is C05's concern; here the stdlib twin predicts how many items a tool takes",
                "athrow on a LIVE handle is not part of the property's operation list and is not generated; athrow on a closed handle is"]
 EXHAUSTIVE_SUBSPACES = 'all histories of length <= 3 (thorough: 4) over a 13-operation alphabet'
@@ -87,6 +89,11 @@ class _bare:
             return next(self._it)
         except StopIteration:
             raise StopAsyncIteration from None
+
+
+def _unorderable_from_2(x):
+    """Items with key >= 2 become text: no ``<`` between them and the numbers the others become."""
+    return "text" if x.key >= 2 else x.key
 
 
 class _wild(_bare):
@@ -296,9 +303,17 @@ TOOLS = {
     # the handle merged after a source that considers itself equal to everything (a wildcard record stream)
     "merge_after_wildcard_source": ("iter", lambda h: A.merge(_wild([Item(0, "w0"), Item(9, "w9")]), h, key=lambda x: x.key),
                                     lambda it: heapq.merge([Item(0, "w0"), Item(9, "w9")], it, key=lambda x: x.key)),
+    # the handle between an EMPTY input and one that ends early: positions among the inputs and among the live ones differ
+    "merge_between_empty_and_short": ("iter", lambda h: A.merge([], h, [Item(-1, "m1")], key=lambda x: x.key),
+                                      lambda it: heapq.merge([], it, [Item(-1, "m1")], key=lambda x: x.key)),
+    "merge_after_two_empties": ("iter", lambda h: A.merge([], _bare([]), h, [Item(-1, "m0")], key=lambda x: x.key),
+                                lambda it: heapq.merge([], [], it, [Item(-1, "m0")], key=lambda x: x.key)),
     "zip_with_bare_source": ("iter", lambda h: A.zip(h, _bare([7, 8, 9])), lambda it: zip(it, [7, 8, 9])),
     "zip_bare_source_first": ("iter", lambda h: A.zip(_bare([7, 8]), h), lambda it: zip([7, 8], it)),
     "set_rejects_first": ("agg", lambda h: A.set(A.chain([[0]], h)), lambda it: set(itertools.chain([[0]], it))),
+    # comparisons that are refused for one item (no key): the aggregation fails AT that item, the rest stays on the handle
+    "max_rejects_item": ("agg", lambda h: A.max(A.map(_unorderable_from_2, h)), lambda it: max(map(_unorderable_from_2, it))),
+    "min_rejects_item": ("agg", lambda h: A.min(A.map(_unorderable_from_2, h), default=None), lambda it: min(map(_unorderable_from_2, it), default=None)),
     "sum_rejects_item": ("agg", lambda h: A.sum(h), lambda it: sum(it)),
     "set_items": ("agg", lambda h: A.set(h), lambda it: set(it)),
     "tuple_items": ("agg", lambda h: A.tuple(h), lambda it: tuple(it)),
